@@ -48,6 +48,11 @@ func C12_Run(job string) {
 	ctxOK := func(ctx z.Ctx) bool { return v.And(eqAny(ctx.Get("k"), k), ctx.Get("other") == nil) }
 	x := v.Int("x")
 	isV := c == "validate"
+	{
+		// an earlier, unrelated execution with other context values: they must not be visible
+		var pd int
+		z.Int().Parse(1, &pd, z.WithCtxValue("other", 1), z.WithCtxValue("k", "stale"))
+	}
 	switch a {
 	case "arg":
 		var d c12Dest
@@ -321,6 +326,9 @@ func C19_Run(job string) {
 		case "top":
 			s := z.Slice(z.Int()).Default(def).PostTransform(mutate)
 			var r1, r2 []int
+			if v.Choice("prealloc", 2) == 1 {
+				r1, r2 = make([]int, 0, 4), make([]int, 0, 4)
+			}
 			if isV {
 				s.Validate(&r1)
 				s.Validate(&r2)
@@ -360,6 +368,9 @@ func C19_Run(job string) {
 				return nil
 			})
 			var r1, r2 [][]int
+			if v.Choice("prealloc", 2) == 1 {
+				r1, r2 = make([][]int, 0, 4), make([][]int, 0, 4) // empty destination with spare capacity
+			}
 			if isV {
 				s.Validate(&r1)
 				s.Validate(&r2)
